@@ -227,11 +227,12 @@ Lemma all_plain_str_forallb : forall l, all_plain_str l ->
   forallb (fun x => match x with PStr _ _ => true | _ => false end) l = true.
 Proof. intros l H; induction H as [|x t [s ->] _ IH]; cbn; auto. Qed.
 
-Lemma do_convert_ok_type : forall T v w, T <> TBlob -> rows_ok T v -> is_error v = false ->
+Lemma do_convert_ok_type : forall T v w, rows_ok T v -> is_error v = false ->
   do_convert orc T v = Ok w -> (is_right_type T w = true \/ is_text w = true) /\ is_error w = false.
 Proof.
-  intros T v w HT Hrows Herr H. destruct T; cbn [do_convert] in H; try contradiction.
+  intros T v w Hrows Herr H. destruct T; cbn [do_convert] in H.
   - apply text_do_convert_shape in H as [->|[s ->]]; cbn; auto.
+  - destruct v; inversion H; subst; cbn; auto.
   - destruct v; inversion H; subst; cbn; auto.
   - apply bool_do_convert_shape in H as [b ->]; cbn; auto.
   - apply int_do_convert_shape in H as [->|[n [-> Hn]]]; cbn; auto.
@@ -257,12 +258,12 @@ Definition total_at (T : ctype) (v : value) : Prop :=
   (is_error v = true /\ w = v) \/
   (is_error v = false /\ is_error w = false /\ (is_right_type T w = true \/ is_text w = true)).
 
-Lemma convert_total : forall T v, T <> TBlob -> rows_ok T v -> total_at T v.
+Lemma convert_total : forall T v, rows_ok T v -> total_at T v.
 Proof.
-  intros T v HT Hrows. unfold total_at, convert.
+  intros T v Hrows. unfold total_at, convert.
   destruct (is_error v) eqn:Herr; [left; auto|right; split; [reflexivity|]].
   destruct (do_convert orc T v) as [w|e] eqn:E.
-  - destruct (do_convert_ok_type T v w HT Hrows Herr E) as [H1 H2]. auto.
+  - destruct (do_convert_ok_type T v w Hrows Herr E) as [H1 H2]. auto.
   - destruct (py_str orc v); cbn; auto.
 Qed.
 
@@ -332,7 +333,7 @@ Lemma do_convert_again : forall T v w, rows_ok T v -> is_error v = false ->
 Proof.
   intros T v w Hrows Herr H Hdeg. destruct T; cbn [do_convert] in *.
   - apply text_do_convert_shape in H as [->|[s ->]]; reflexivity.
-  - reflexivity.
+  - destruct v; inversion H; subst; reflexivity.
   - destruct v; inversion H; subst; try reflexivity.
   - apply bool_do_convert_shape in H as [[|] ->]; reflexivity.
   - apply int_do_convert_shape in H as [->|[n [-> Hn]]]; [reflexivity|apply int_again; exact Hn].
@@ -391,9 +392,7 @@ Proof.
   { unfold convert. rewrite Herr. reflexivity. }
   destruct (do_convert orc T v) as [w|e] eqn:E.
   - assert (Hw : is_error w = false).
-    { destruct (classic_blob T) as [->|HT].
-      - cbn in E. inversion E; subst; exact Herr.
-      - apply (do_convert_ok_type T v w HT Hrows Herr E). }
+    { apply (do_convert_ok_type T v w Hrows Herr E). }
     unfold convert. rewrite Hw. rewrite (do_convert_again T v w Hrows Herr E Hdeg). reflexivity.
   - destruct (is_text v) eqn:Htext.
     + destruct v; try discriminate. cbn [py_str] in *.
